@@ -562,10 +562,12 @@ class QuorumSensing:
             # Higher confidence = more influence
             likelihood = 0.5 + (vote.confidence * 0.4)  # 0.5-0.9
             prior_permit = self._bayesian_update(prior_permit, likelihood, vote.weight)
+            prior_block = self._bayesian_update(prior_block, 1.0 - likelihood, vote.weight)
 
         for vote in block_votes:
             likelihood = 0.5 + (vote.confidence * 0.4)
             prior_block = self._bayesian_update(prior_block, likelihood, vote.weight)
+            prior_permit = self._bayesian_update(prior_permit, 1.0 - likelihood, vote.weight)
 
         # Normalize
         total = prior_permit + prior_block
@@ -574,7 +576,7 @@ class QuorumSensing:
         else:
             posterior_permit = 0.5
 
-        reached = posterior_permit > threshold
+        reached = len(permit_votes) > 0 and posterior_permit > threshold
         decision = VoteType.PERMIT if reached else VoteType.BLOCK
 
         return QuorumResult(
@@ -595,9 +597,12 @@ class QuorumSensing:
         """Apply Bayesian update with weighted evidence."""
         # Weighted likelihood based on agent weight
         adjusted_likelihood = 0.5 + (likelihood - 0.5) * weight
+        # Keep it a probability (weights > 1 would push it past 1)
+        adjusted_likelihood = min(0.99, max(0.01, adjusted_likelihood))
 
         # Bayes' theorem: P(H|E) = P(E|H) * P(H) / P(E)
-        # Simplified: just multiply prior by likelihood
+        # Each vote updates both hypotheses: P(E|H) for the side voted for,
+        # 1 - P(E|H) for the other; the caller normalizes at the end
         return prior * adjusted_likelihood
 
     def _threshold_vote(
@@ -608,7 +613,11 @@ class QuorumSensing:
         abstain_votes: list[Vote]
     ) -> QuorumResult:
         """Fixed threshold count (e.g., need exactly N permits)."""
-        threshold = int(self.custom_threshold or len(self.colony) // 2 + 1)
+        threshold = self.custom_threshold or len(self.colony) // 2 + 1
+        if 0 < threshold < 1:
+            # Fractional threshold (e.g. EmergencyQuorum's 0.3): share of the colony, rounded up
+            threshold = math.ceil(threshold * len(self.colony) - 1e-9)
+        threshold = max(1, int(threshold))
 
         reached = len(permit_votes) >= threshold
         decision = VoteType.PERMIT if reached else VoteType.BLOCK
